@@ -422,7 +422,7 @@ def check_case(case) -> list[Failure]:
 
 
 def shrink_candidates(case):
-    if "packaged" in case:
+    if "packaged" in case or "packaged_hint" in case:
         return
     fs = case["fields"]
     for i in range(len(fs)):
